@@ -105,3 +105,18 @@ Theorem C12_sorter_insert_fault : forall mf j c st k v st', s_insert c mf st k v
   (ss_calls st <= j < ss_calls st' -> s_insert c (mf_fail_at j mf) st k v = Fail EMerge).
 Proof. exact sorter_insert_fault. Qed.
 Print Assumptions C12_sorter_insert_fault.
+
+(* ================= an I/O error in the middle of a block load =================
+   errsched k sched: the schedule of the source (short reads, interruptions) is benign up to a first
+   failing call that reports the I/O error k.  Block::new over that source either finishes before the
+   failing call — and then returns exactly the block a plain source gives — or returns exactly that
+   error; never a panic, never another block.  With C12_reader_fault_step (a failing load fails the
+   operation in progress with that error) this covers a source failing at any read of any operation. *)
+From Grenad.proofs Require Import IoFault.
+
+Theorem C12_load_fault : forall dec file codec sched reqs ord off k,
+  errsched k sched -> Forall (fun r => 1 <= r) reqs -> 8 <= len (skipnN off file) ->
+  load_block_sched dec file codec sched reqs off = Fail (EIo k) \/
+  load_block_sched dec file codec sched reqs off = load_block dec file codec ord off.
+Proof. exact load_block_fault. Qed.
+Print Assumptions C12_load_fault.
